@@ -2,6 +2,7 @@ import Isotp
 import Isotp.Sock
 import Isotp.Threaded
 import Isotp.Spec.Segment
+import Isotp.Net
 /-
   Line-protocol driver: reads one operation per line on stdin, executes it on the model,
   prints exactly one output line per input line. See harness/proto.md.
@@ -123,38 +124,20 @@ def txStN : TxSt → Nat | .idle => 0 | .waitFc => 1 | .transmitCf => 2 | .sfSta
 def showStatus (s : State) : String :=
   s!"rx={rxStN s.rxState} tx={txStN s.txState} av={b01 s.available} tr={b01 s.transmitting} th={b01 s.isTxThrottled} q={s.txQueue.length}"
 
-structure Drv where
-  layers : Array State := #[]
-  outbox : Array (List CanMsg) := #[]
+structure Drv extends Net where
   addrs  : Array (Option Half) := #[]
-  now    : Nat := 0
-  emitted : Array Nat := #[]                      -- frames emitted so far per layer
-  faults  : Array (Option (Bool × Nat)) := #[]   -- armed link fault per layer: (dup?, index)
   sock    : Sock.Sock := {}
   tl      : Option TL := none
 
-/-- run an operation on layer i: sync clock, run, collect new events, route tx frames to the outbox -/
+/-- run an operation on layer i (`Net.onLayer`) and format the output line -/
 def onLayer (d : Drv) (i : Nat) (f : State → State × String) : Drv × String :=
-  match d.layers[i]? with
+  match d.toNet.onLayer i f with
   | none => (d, "bad-layer")
-  | some s0 =>
-    let s0 := { s0 with now := d.now, log := [] }
-    let (s, res) := f s0
-    let evs := s.log.reverse
-    let txs := evs.filterMap fun e => match e with | .tx _ m => some m | _ => none
-    let n0 := d.emitted[i]?.getD 0
-    let routed : List CanMsg := match (d.faults[i]?.getD none) with
-      | none => txs
-      | some (dup, k) =>
-        (txs.zipIdx.map fun (m, j) =>
-          if n0 + j = k then (if dup then [m, m] else []) else [m]).flatten
-    let out := (d.outbox[i]?.getD []) ++ routed
+  | some (n, s, evs, res) =>
     let line := match s.exc with
       | some e => s!"{showEvents evs}|exc {e.name}|{showStatus s}"
       | none => s!"{showEvents evs}|{res}|{showStatus s}"
-    let s := { s with log := [], exc := none }
-    ({ d with layers := d.layers.set! i s, outbox := d.outbox.set! i out, now := s.now,
-              emitted := d.emitted.set! i (n0 + txs.length) }, line)
+    ({ d with toNet := n }, line)
 
 def showCall : Sock.Call → String
   | .setopt lvl opt d => s!"so:{lvl}:{opt}:{hexOf d}"
@@ -238,12 +221,7 @@ def step (d : Drv) (line : String) : Drv × String :=
       match mkAddr kv with
       | .error e => (d, s!"exc {e.name}")
       | .ok a =>
-        let s := State.init (parseCfg kv) a
-        let layers := if i < d.layers.size then d.layers.set! i s else d.layers.push s
-        let outbox := if i < d.outbox.size then d.outbox.set! i [] else d.outbox.push []
-        let emitted := if i < d.emitted.size then d.emitted.set! i 0 else d.emitted.push 0
-        let faults := if i < d.faults.size then d.faults.set! i none else d.faults.push none
-        ({ d with layers := layers, outbox := outbox, emitted := emitted, faults := faults }, "ok")
+        ({ d with toNet := d.toNet.setLayer i (State.init (parseCfg kv) a) }, "ok")
   | ["send", i, id, size, hex, tat, instr] =>
     match i.toNat?, id.toNat?, size.toInt?, parseHex hex with
     | some i, some id, some size, some src =>
@@ -291,7 +269,7 @@ def step (d : Drv) (line : String) : Drv × String :=
     | none => (d, "bad-op")
   | ["tick", dt] =>
     match dt.toNat? with
-    | some dt => ({ d with now := d.now + dt }, "ok")
+    | some dt => ({ d with toNet := d.toNet.tick dt }, "ok")
     | none => (d, "bad-op")
   | ["recv", i] =>
     match i.toNat? with
@@ -314,27 +292,16 @@ def step (d : Drv) (line : String) : Drv × String :=
   | ["deliver", i, j, n] =>
     match i.toNat?, j.toNat?, n.toNat? with
     | some i, some j, some n =>
-      let ob := d.outbox[i]?.getD []
-      let mv := ob.take n
-      let d := { d with outbox := d.outbox.set! i (ob.drop n) }
-      match d.layers[j]? with
+      match d.toNet.deliver i [j] n with
+      | some (net, k) => ({ d with toNet := net }, s!"moved {k}")
       | none => (d, "bad-layer")
-      | some s =>
-        let s := mv.foldl (fun s m => s.pushFrame 0 m) s
-        ({ d with layers := d.layers.set! j s }, s!"moved {mv.length}")
     | _, _, _ => (d, "bad-op")
   | ["deliver", i, j, n, k] =>
     match i.toNat?, j.toNat?, n.toNat?, k.toNat? with
     | some i, some j, some n, some k =>
-      let ob := d.outbox[i]?.getD []
-      let mv := ob.take n
-      let d := { d with outbox := d.outbox.set! i (ob.drop n) }
-      match d.layers[j]?, d.layers[k]? with
-      | some s, some s2 =>
-        let s := mv.foldl (fun s m => s.pushFrame 0 m) s
-        let s2 := mv.foldl (fun s m => s.pushFrame 0 m) s2
-        ({ d with layers := (d.layers.set! j s).set! k s2 }, s!"moved {mv.length}")
-      | _, _ => (d, "bad-layer")
+      match d.toNet.deliver i [j, k] n with
+      | some (net, c) => ({ d with toNet := net }, s!"moved {c}")
+      | none => (d, "bad-layer")
     | _, _, _, _ => (d, "bad-op")
   | ["fault", i, kind, n] =>
     match i.toNat?, n.toNat? with
